@@ -69,11 +69,13 @@ pub struct NodeBehaviour {
     /// a record (raw bytes, node id) this node slips into its NODES answers whenever its log2
     /// distance from this node is NOT among the requested ones
     pub off_distance_record: Option<(Vec<u8>, Id)>,
+    /// what this node hands out for distance 0 instead of its one own record, in this order
+    pub own_records_list: Option<Vec<Vec<u8>>>,
 }
 
 impl Default for NodeBehaviour {
     fn default() -> Self {
-        NodeBehaviour { silent: false, respond: true, challenge_unknown: true, answer_whoareyou: true, pong_addr: None, records_per_packet: 3, lose_replies: 0, own_record_override: None, reply_delay: Duration::ZERO, off_distance_record: None }
+        NodeBehaviour { silent: false, respond: true, challenge_unknown: true, answer_whoareyou: true, pong_addr: None, records_per_packet: 3, lose_replies: 0, own_record_override: None, reply_delay: Duration::ZERO, off_distance_record: None, own_records_list: None }
     }
 }
 
@@ -561,8 +563,12 @@ impl World {
                 let me = self.nodes[i].sim.ident.id;
                 let mut recs: Vec<Vec<u8>> = Vec::new();
                 if distances.contains(&0) {
-                    let own = self.nodes[i].b.own_record_override.clone().unwrap_or_else(|| self.nodes[i].sim.ident.record_bytes());
-                    recs.push(own);
+                    if let Some(list) = self.nodes[i].b.own_records_list.clone() {
+                        recs.extend(list);
+                    } else {
+                        let own = self.nodes[i].b.own_record_override.clone().unwrap_or_else(|| self.nodes[i].sim.ident.record_bytes());
+                        recs.push(own);
+                    }
                 }
                 for &j in &self.nodes[i].neighbours {
                     let d = log2(&me, &self.nodes[j].sim.ident.id);
